@@ -185,6 +185,9 @@ func newC18Server(scn *c18Scn) (*c18Server, error) {
 			time.Sleep(3 * time.Millisecond)
 		}
 		s.rec(sid, evEst)
+		if os.Getenv("VERIF_DEBUG") != "" {
+			fmt.Fprintf(os.Stderr, "DEBUG %v established callback recorded for %s\n", time.Now().Format("15:04:05.000000"), sid)
+		}
 		if scn.Push {
 			// what a server application does: push envelopes to a client from a goroutine of its own,
 			// through the channel the callback was given - also while the server is being closed
@@ -203,7 +206,12 @@ func newC18Server(scn *c18Scn) (*c18Server, error) {
 			}()
 		}
 	}
-	cfg.Finished = func(sid string) { s.rec(sid, evFin) }
+	cfg.Finished = func(sid string) {
+		s.rec(sid, evFin)
+		if os.Getenv("VERIF_DEBUG") != "" {
+			fmt.Fprintf(os.Stderr, "DEBUG %v finished callback recorded for %s\n", time.Now().Format("15:04:05.000000"), sid)
+		}
+	}
 	mux := &lime.EnvelopeMux{}
 	mux.MessageHandlerFunc(nil, func(ctx context.Context, msg *lime.Message, snd lime.Sender) error {
 		sid, _ := lime.ContextSessionID(ctx)
@@ -507,7 +515,7 @@ func c18Sessions(scn *c18Scn) c18Obs {
 		m.SetContent(lime.TextDocument("x"))
 		return m
 	}
-	establish := func(c *c18Cli, i int, name string) error {
+	establishIn := func(ctx context.Context, c *c18Cli, i int, name string) error {
 		t, err := s.dial(ctx, c.spec.Kind)
 		if err != nil {
 			return err
@@ -529,6 +537,13 @@ func c18Sessions(scn *c18Scn) c18Obs {
 			}()
 		}
 		return nil
+	}
+	establish := func(c *c18Cli, i int, name string) error { return establishIn(ctx, c, i, name) }
+	// (a client that connects while Close runs may be left without an answer: it does not wait for the whole scenario)
+	establishWithin := func(c *c18Cli, i int, name string, d time.Duration) error {
+		ectx, ec := context.WithTimeout(ctx, d)
+		defer ec()
+		return establishIn(ectx, c, i, name)
 	}
 	for i, spec := range scn.Clients {
 		c := &c18Cli{spec: spec, stop: make(chan struct{}), done: make(chan struct{})}
@@ -644,7 +659,10 @@ func c18Sessions(scn *c18Scn) c18Obs {
 			cwg.Add(1)
 			go func(i int, c *c18Cli) {
 				defer cwg.Done()
-				_ = establish(c, i, fmt.Sprintf("u%d", i))
+				err := establishWithin(c, i, fmt.Sprintf("u%d", i), 6*time.Second*slack)
+				if os.Getenv("VERIF_DEBUG") != "" {
+					fmt.Fprintf(os.Stderr, "DEBUG %v connecting client %d: establish returned %v\n", time.Now().Format("15:04:05.000000"), i, err)
+				}
 			}(i, c)
 		}
 	}
@@ -709,6 +727,14 @@ func c18Sessions(scn *c18Scn) c18Obs {
 					}
 				}
 				rc()
+				if !c.closed && c.spec.Phase == "connecting" && c.spec.Kind == "inproc" {
+					// DialInProcess found the listener registered a moment before Close removed it; the connection sits
+					// in the stopped listener's queue, which nobody reads any more (in_process_transport.go: newClient /
+					// Close).  The Server never saw this connection; no clause of C18 is about it (DESIGN.md 10.3,
+					// observations): it counts as a client that did not get through.
+					c.closed = true
+					o.Note += "an in-process dial that raced with Close was left in the stopped listener's queue; "
+				}
 				if c.cc != nil {
 					_ = c.cc.Close()
 				} else {
@@ -727,6 +753,9 @@ func c18Sessions(scn *c18Scn) c18Obs {
 		fctx, fc := context.WithTimeout(context.Background(), 2*time.Second*slack)
 		if c.cc.State() == lime.SessionStateFinished {
 			c.sawFin = true
+			if os.Getenv("VERIF_DEBUG") != "" {
+				o.Note += " sawFin-by-state"
+			}
 		} else if ses, err := c.cc.FinishSession(fctx); err == nil && ses.State == lime.SessionStateFinished {
 			// the finished envelope is waiting in the session stream (the client had not looked yet)
 			c.sawFin = true
@@ -749,6 +778,9 @@ func c18Sessions(scn *c18Scn) c18Obs {
 	o.ListenersLeft = s.listenersLeft()
 
 	// assemble the per-client traces
+	if os.Getenv("VERIF_DEBUG") != "" {
+		fmt.Fprintf(os.Stderr, "DEBUG %v assembling traces now\n", time.Now().Format("15:04:05.000000"))
+	}
 	s.mu.Lock()
 	log := append([]c18Ev(nil), s.log...)
 	s.mu.Unlock()
@@ -784,6 +816,12 @@ func c18Sessions(scn *c18Scn) c18Obs {
 			tr = append(tr, cliEv...)
 		}
 		o.Traces[i] = tr
+	}
+	if os.Getenv("VERIF_DEBUG") != "" {
+		o.Note += fmt.Sprintf(" DEBUG log=%v", log)
+		for i, c := range clis {
+			o.Note += fmt.Sprintf(" cli%d{sid=%q est=%v sawFin=%v closed=%v}", i, c.sid, c.est, c.sawFin, c.closed)
+		}
 	}
 	for _, e := range log {
 		if !known[e.sid] {
@@ -1007,6 +1045,9 @@ func runC18(env *Env) error {
 		}
 		if c.Scn.HoldEst {
 			env.Count("client-gone-while-the-server-is-still-sending-established")
+		}
+		if strings.Contains(c.Obs.Note, "left in the stopped listener's queue") {
+			env.Count("in-process-dial-left-in-the-stopped-listeners-queue (outside C18)")
 		}
 		for _, cl := range c.Scn.Clients {
 			env.Count("phase=" + cl.Phase)
